@@ -199,10 +199,12 @@ structure St where
   tests : List (Str × Str)               -- tests_str as lines (key, value)
   netsStr : Option (Str × Str)           -- nets_str: none = "", some (word, value)
   vmLines : List (Str × (Str × Str))     -- vm_strs: (vm, (word, value)) in order of appearance
+  explicitNets : Bool                    -- explicit_nets is not None
 deriving DecidableEq, Repr
 
 def St.init (av : Avail) : St :=
-  { useDef := true, vmNoDef := [], selVms := av.vms, pd := [], tests := [], netsStr := none, vmLines := [] }
+  { useDef := true, vmNoDef := [], selVms := av.vms, pd := [], tests := [], netsStr := none, vmLines := [],
+    explicitNets := false }
 
 /-- `param.all_suffixes_by_restriction(nets_str)` -/
 def netsBy (av : Avail) (ns : Option (Str × Str)) : Except Err (List Str) :=
@@ -215,11 +217,11 @@ def netsBy (av : Avail) (ns : Option (Str × Str)) : Except Err (List Str) :=
       let r := (av.nets.filter (fun n => keepLine x n.1)).map (·.2)
       if r.isEmpty then .error .emptyProduct else .ok r
 
-/-- `re.match(f"(only|no)_{vm}", key)` (a prefix match) -/
-def vmKey (key vm : Str) : Bool := (kOnlyU ++ vm).isPrefixOf key || (kNoU ++ vm).isPrefixOf key
+/-- `re.fullmatch(f"(only|no)_{vm}", key)` (exact since /repo 6e359ac; a prefix match before) -/
+def vmKey (key vm : Str) : Bool := key == kOnlyU ++ vm || key == kNoU ++ vm
 
-/-- `re.match("(only|no)_nets", key)` (a prefix match) -/
-def netsKey (key : Str) : Bool := kOnlyNets.isPrefixOf key || kNoNets.isPrefixOf key
+/-- `re.fullmatch("(only|no)_nets", key)` (exact since /repo 6e359ac) -/
+def netsKey (key : Str) : Bool := key == kOnlyNets || key == kNoNets
 
 /-- one iteration of the main tokenizing loop -/
 def step (av : Avail) (st : St) (arg : Str) : Except Err St :=
@@ -233,9 +235,11 @@ def step (av : Avail) (st : St) (arg : Str) : Except Err St :=
     else if kOnlyU.isPrefixOf key || kNoU.isPrefixOf key then
       if netsKey key then
         let ns := if value.isEmpty then none else some (removeAll kUNets key, value)
-        match netsBy av ns with
-        | .error e => .error e
-        | .ok names => .ok { st with netsStr := ns, pd := dictSet st.pd kNets (joinSp names) }
+        -- since /repo 893de05: a non-empty restriction after an explicit `nets=` is a conflict too
+        if ns.isSome && st.explicitNets then .error .valueError
+        else match netsBy av ns with
+          | .error e => .error e
+          | .ok names => .ok { st with netsStr := ns, pd := dictSet st.pd kNets (joinSp names) }
       else
         match av.vms.find? (vmKey key) with
         | some vm =>
@@ -249,7 +253,7 @@ def step (av : Avail) (st : St) (arg : Str) : Except Err St :=
       if sel.all (av.vms.contains ·) then .ok { st with selVms := sel } else .error .valueError
     else if key == kNets then
       if st.netsStr.isSome then .error .valueError
-      else .ok { st with pd := dictSet st.pd key (commaToSpace value) }
+      else .ok { st with pd := dictSet st.pd key (commaToSpace value), explicitNets := true }
     else
       .ok { st with pd := dictSet st.pd key (commaToSpace value) }
 
